@@ -208,6 +208,11 @@ def work_names(job: Tuple[Case, str]) -> Dict[str, Any]:
             res["inconclusive"].append(f"{res['case']}: {e}")
             return res
     missing: List[str] = []
+    # output files are <schema file base name>_bp.<ext> (nothing below may pass vacuously because a file was not found)
+    for key, ext in [("c:h", "h"), ("c:c", "c"), ("go:go", "go"), ("py:py", "py")] + ([] if is_extensible_case(case) else [("c-O:h", "h"), ("c-O:c", "c")]):
+        res["obligations"] += 1
+        if key not in outs:
+            missing.append(f"{key.split(':')[0]}: output file {cs.proto.stem()}_bp.{ext} is not written")
 
     def need(where: str, pattern: str, what: str) -> None:
         res["obligations"] += 1
@@ -221,22 +226,25 @@ def work_names(job: Tuple[Case, str]) -> Dict[str, Any]:
                 ch = chain + [d.name]
                 if all(_letters_only(n) for n in ch):
                     flat, us = "".join(ch), _upper_snake(ch)
+                    simple = all(_re.fullmatch(r"([A-Z][a-z]+)+", n) for n in ch)  # UPPER_SNAKE of acronym runs is the converter's business
                     need("c:h", rf"\bstruct\s+{P}{flat}\s*\{{", f"struct {P}{flat}")
                     need("c-O:h", rf"\bstruct\s+{P}{flat}\s*\{{", f"struct {P}{flat}")
                     for fn in ("Encode", "Decode"):
                         need("c:h", rf"\b{fn}{P}{flat}\s*\(", f"{fn}{P}{flat}()")
                         need("c-O:h", rf"\b{fn}{P}{flat}\s*\(", f"{fn}{P}{flat}()")
                     need("c:h", rf"\bJson{P}{flat}\s*\(", f"Json{P}{flat}()")
-                    need("c:h", rf"#\s*define\s+BYTES_LENGTH_{PU}{us}\s+\(?\d+", f"BYTES_LENGTH_{PU}{us}")
+                    if simple:
+                        need("c:h", rf"#\s*define\s+BYTES_LENGTH_{PU}{us}\s+\(?\d+", f"BYTES_LENGTH_{PU}{us}")
                     need("py", rf"(?m)^class\s+{'_'.join(ch)}\s*[\(:]", f"class {'_'.join(ch)}")
                     need("go", rf"(?m)^type\s+{flat}\s+struct", f"type {flat} struct")
-                    need("go", rf"\bBYTES_LENGTH_{us}\b", f"BYTES_LENGTH_{us}")
+                    if simple:
+                        need("go", rf"\bBYTES_LENGTH_{us}\b", f"BYTES_LENGTH_{us}")
                     for f in d.fields:
                         if _re.fullmatch(r"[a-z][a-z_]*[a-z]|[a-z]", f.name):
                             need("go", rf'json:"{f.name}[",]', f'JSON tag "{f.name}" in {flat}')
                 walk(d.nested, ch)
             elif isinstance(d, SEnum):
-                if all(_letters_only(n) for n in chain + [d.name]):
+                if all(_re.fullmatch(r"([A-Z][a-z]+)+", n) for n in chain) and _letters_only(d.name):
                     for mname, _v in d.members:
                         if not _re.fullmatch(r"[A-Z]+(_[A-Z]+)*", mname):
                             continue
@@ -263,7 +271,9 @@ def main() -> int:
     bases = [c for c in f_shape_core() if c.name in keep]
     cfgs = [Cfg("O0", "x86_64"), Cfg("O2", "x86_64")]
     jobs = [(c, PREFIXES[i % 2] if q else p, cfgs[i % 2] if q else cfg) for i, c in enumerate(bases) for p in (PREFIXES[:1] if q else PREFIXES) for cfg in (cfgs[:1] if q else cfgs)]
-    name_jobs = [(c, p) for c in f_shape_core() if "noc" not in c.tags for p in ("", "my_lib")]
+    from ..families import f_naming
+
+    name_jobs = [(c, p) for c in f_shape_core() + [x for x in f_naming() if "prefix" not in x.tags] if "noc" not in c.tags for p in ("", "my_lib")]
     parts = [("c-name-prefix-invariance", work_prefix, jobs), ("api-name-templates", work_templates, [0]), ("documented-names", work_names, name_jobs)]
     meta = {
         "functions_encoded": cenc.C_FILES + ["compiler/bitproto/renderer/impls/go/formatter.py", "compiler/bitproto/renderer/impls/py/formatter.py"],
